@@ -124,12 +124,44 @@ template <class T> static void run_T(Choice &c, Ctx &cx)
         }
         nt = (info >= 1 && info <= n) || exact_branch || (!nodrop);
     } while (0);
+    // ---- the incomplete factors re-used for other values (Fact = SamePattern_SameRowPerm) ----------------------------
+    // Dropping depends on the values, so fill, supernode partition and counts generally change; what is handed back must
+    // again be one consistent structure, and X must again be the solve defined by the returned factors.
+    bool reused = false;
+    if (ok && !cx.skipped && e.lu_live && c.chance(90)) {
+        for (size_t q = 0; q < e.S.val.size(); ++q) { int sft = zigzag(c.u8(), single ? 6 : 12); e.S.val[q] = val0[q] * (R)std::ldexp(1.0, sft); }
+        std::vector<T> val1 = e.S.val;
+        e.B = gen_rhs<T>(c, n, nrhs, ldb, cplx); std::vector<T> B1 = e.B;
+        e.X.assign(e.X.size(), sentinel_value<T>());
+        e.so.Fact = SamePattern_SameRowPerm;
+        e.bind();
+        if (e.call()) { cx.fail("abort", "gsisx(SamePattern_SameRowPerm): library called ABORT/exit: " + std::string(vf_abort_msg())); vf_purge(); return; }
+        long long info2 = e.info; reused = true;
+        if (info2 < 0 || info2 > n + 1) { e.lu_live = false; bail(); VF_FAIL(cx, "info", "re-use of the incomplete factors returned info=%lld", info2); }
+        if (!is_perm(e.perm_r.data(), n) || !is_perm(e.perm_c.data(), n)) { bail(); VF_FAIL(cx, "perm", "after re-use with SamePattern_SameRowPerm the permutations are not bijections"); }
+        FactorShape fs2;
+        if (!check_structure<T>(cx, &e.L, &e.U, n, n, true, fs2)) { cx.msg = "after re-use with SamePattern_SameRowPerm: " + cx.msg; bail(); return; }
+        Dense<W> L2, U2; decode_factors<T>(&e.L, &e.U, L2, U2);
+        for (int j = 0; j < n; ++j) if (!(U2(j, j) != W(0)) || !finite_w(U2(j, j))) { bail(); VF_FAIL(cx, "u-diagonal", "after re-use: U(%d,%d)=%s", j, j, w_str(U2(j, j)).c_str()); }
+        if (nrhs > 0 && e.equed[0] == 'N' && all_finite(L2) && all_finite(U2)) {
+            Dense<LD> E2 = abs_product(L2, U2);
+            if (all_finite(E2)) {
+                trans_t trant2 = o.nr ? (o.trans == NOTRANS ? TRANS : NOTRANS) : o.trans;
+                Dense<W> P2 = product(L2, U2), M2(n, n);
+                for (int j = 0; j < n; ++j) for (int i = 0; i < n; ++i) M2(i, j) = P2(e.perm_r[i], e.perm_c[j]);
+                Dense<W> Op2 = trant2 == NOTRANS ? M2 : transpose(M2, trant2 == CONJ);
+                if (cplx && o.nr && o.trans == CONJ) for (auto &x : Op2.a) x = conj_w(x);
+                Dense<LD> F2 = permute_back(E2, e.perm_r.data(), e.perm_c.data(), n, trant2 != NOTRANS);
+                if (!check_residual<T>(cx, Op2, F2, e.X.data(), ldx, B1.data(), ldb, nrhs, nullptr, nullptr, 1, "preconditioner-solve(re-use)")) { bail(); return; }
+            }
+        }
+    }
     e.teardown();
     if (!ok) { vf_purge(); return; }
     if (!ledger_clean(cx, "after destroying the ILU factors")) return;
     if (cx.skipped) return;
     if (info >= 1 && info <= n) cx.label("pivots-replaced"); if (exact_branch) cx.label("nodrop-exact-branch"); if (fs.multi) cx.label("supernodes=multi");
-    cx.label(std::string("equed=") + eq);
+    cx.label(std::string("equed=") + eq); if (reused) cx.label("refactored-same-row-perm");
     cx.nontrivial = nt && n >= 2;
 }
 
